@@ -248,6 +248,7 @@ def run(tier, seed):
         "model_divergences": ["%s %s x%d" % (b, sig, n) for (b, sig), (n, _) in sorted(diverged.items())],
         "decisive_guards": sorted(DECISIVE),
         "heap_walk": {k: wcov.get(k) for k in ("traces_validated_against_impl", "trace_events_validated", "decisive_guards")},
+        "segment_tables_validated": wcov.get("segment_tables_validated", 0), "heap_dumps_validated": wcov.get("heap_dumps_validated", 0),
         "samples": samples[:14],
         "exhaustive": exhaustive,
     }
